@@ -102,6 +102,11 @@ CHECKS = {
     technique="SMT translation validation of integrate_spin / transform_to_spatial_orbitals (expand_eri on/off, restricted) in a spatial x {alpha,beta} orbital model: the spin-orbital input evaluated at the requested target spins and the spin-labelled output share the same unknowns (Coulomb integrals with 8-fold symmetry defining <pq||rs>, spin-conserving amplitudes); blocks not reported by allowed_spin_blocks are shown identically zero by z3",
     text="Generated spin-orbital expressions (V, t amplitudes, ADC vectors, unknown tensors, deltas) with random target order and spins; restricted variant on integral / symbolic-denominator expressions; expression-level and per-intermediate allowed spin blocks.",
     note="Models <=2o2v spatial x spin. restricted=True only for amplitude-free expressions (no single-valued reading of 'alpha and beta amplitudes coincide' after renaming). allowed_spin_blocks only for closed expressions (documented RuntimeError otherwise)."),
+ "C19": dict(
+    level=TV, design="2/C19", engine="tvsmt",
+    technique="results of one request obtained in fresh subprocesses under different PYTHONHASHSEEDs, seeded API histories and an alternative tensor-name configuration are shipped as IR and compared with the pristine result by z3 (value equality for all tensor entries / target assignments); CrossHair inductive step of the index registry (freshness of generic names for histories of any length); text after substitute_contracted, index-set disjointness and object identity compared directly",
+    text="8 (thorough 13) requests x 4 (16) hash seeds x 3 (11) histories of 4-34 calls + 2 runs with every tensor name changed; registry step confirmed from every pre-state of a two-letter cell.",
+    note="Hash seeds and histories are a bounded sample, not solver variables (stated in evidence). Known finding C19-text-history: the text after substitute_contracted depends on the history (same value); recorded in known_findings.json, not repaired."),
 }
 NA_REASON = "check not built yet in this round (planned, see DESIGN.md section 2)"
 
